@@ -35,7 +35,7 @@ SOURCES = [('cprobability', 'src/MTfit/probability/cprobability.pyx'),
 
 MATH1 = {'sqrt': 'Flt.sqrt', 'exp': 'Flt.exp', 'log': 'Flt.log', 'fabs': 'Flt.abs', 'cos': 'Flt.cos', 'sin': 'Flt.sin', 'tan': 'Flt.tan',
          'acos': 'Flt.acos', 'asin': 'Flt.asin', 'atan': 'Flt.atan', 'erf': 'Flt.erf', 'floor': 'Flt.floor', 'abs': 'Flt.abs'}
-BUILTIN_CONST = {'pi': 'Flt.pi', 'sqrt2': '(Flt.sqrt (c 2))', 'M_PI': 'Flt.pi', 'M_SQRT2': '(Flt.sqrt (c 2))'}
+BUILTIN_CONST = {'inf': '((c 1) / (c 0))', 'pi': 'Flt.pi', 'sqrt2': '(Flt.sqrt (c 2))', 'M_PI': 'Flt.pi', 'M_SQRT2': '(Flt.sqrt (c 2))'}
 SCALAR_TYPES = {'DTYPE_t', 'double', 'int', 'long', 'LONG', 'Py_ssize_t', 'float', 'bint', 'bool'}
 LEAN_KEYWORDS = {'at', 'from', 'fun', 'have', 'show', 'then', 'else', 'if', 'let', 'in', 'do', 'end', 'open', 'def', 'theorem', 'h', 'c', 'sci',
                  'half', 'dot', 'by', 'with', 'match', 'instance', 'structure', 'class', 'where', 'variable', 'namespace', 'section'}
@@ -231,6 +231,8 @@ def expr(n, env, cx):
         raise Unsupported('name %s' % n.id)
     if isinstance(n, ast.Subscript):
         idx = n.slice
+        if isinstance(n.value, ast.Name) and isinstance(idx, ast.Name) and ('arr:' + n.value.id) in env and ('idx:' + idx.id) in env:
+            return '(%s.getD %s (c 0))' % (env['arr:' + n.value.id], env['idx:' + idx.id])
         if isinstance(n.value, ast.Name) and is_int_lit(idx):
             key = '%s[%d]' % (n.value.id, idx.value)
             if key in env:
@@ -502,6 +504,168 @@ def translate(module, name, ret, ptext, body, consts, known):
             'consts': sorted(cx.used_consts), 'calls': sorted(cx.calls)}
 
 
+# ----------------------------------------------------------------------------------------------------------- one-dimensional loops
+
+LOOP_HEAD = re.compile(r'^(\s*)for\s+(\w+)\s+from\s+0\s*<=\s*\2\s*<\s*(\w+)\s*:\s*$')
+
+
+def translate_loop_kernel(module, name, ret, ptext, body, consts):
+    """`cdef` reductions over C arrays: parameters are `DTYPE_t*` arrays, scalars and one length; the body is scalar
+    initialisations and (non-nested) `for i from 0<=i<n:` loops whose statements read/write `arr[i]` and update scalar accumulators.
+    Arrays become `List α` (read with `getD`, written with `set`), a loop becomes a left fold over `List.range n` whose state is the
+    tuple of the variables the loop assigns; an `if` evaluates both branches and selects per assigned variable."""
+    parts = [p.strip() for p in ptext.split(',') if p.strip()]
+    params = []
+    for p in parts:
+        m = re.fullmatch(r'([A-Za-z_]\w*)\s*(\*?)\s*(\*?)\s*([A-Za-z_]\w*)', p)
+        if not m:
+            raise Unsupported('parameter %r' % p)
+        typ, s1, s2, nm = m.groups()
+        if typ == 'Py_ssize_t':
+            params.append((nm, 'nat'))
+        elif typ in ('DTYPE_t', 'double') and (s1 or s2):
+            params.append((nm, 'arr'))
+        elif typ in ('DTYPE_t', 'double'):
+            params.append((nm, 'scalar'))
+        else:
+            raise Unsupported('parameter type %s' % typ)
+    if not any(k == 'arr' for _n, k in params) or not any(k == 'nat' for _n, k in params):
+        raise Unsupported('not an array reduction')
+    lines = []
+    for l in body:
+        m = LOOP_HEAD.match(l)
+        if m:
+            lines.append('%sfor %s in range(%s):' % (m.group(1), m.group(2), m.group(3)))
+        else:
+            lines.append(l)
+    try:
+        tree = ast.parse(body_to_python(lines))
+    except SyntaxError as e:
+        raise Unsupported('syntax: %s' % e.msg)
+    cx = Ctx(module, consts, {})
+    env = {}
+    for nm, k in params:
+        if k == 'arr':
+            env['arr:' + nm] = lean_name(nm)
+        else:
+            env[nm] = lean_name(nm)
+    # C locals declared without a value: their (unspecified) content is only read after an assignment; model it as 0
+    for l in body:
+        m = re.match(r'^\s*cdef\s+(?:DTYPE_t|double)\s+([A-Za-z_][\w, ]*)\s*$', l)
+        if m:
+            for nm in m.group(1).split(','):
+                env.setdefault(nm.strip(), '(c 0)')
+    counter = [0]
+    out = []
+
+    def fresh(base):
+        counter[0] += 1
+        return '%s_%d' % (re.sub(r'\W', '_', base), counter[0])
+
+    def assigned(stmts):
+        names = []
+        for st in stmts:
+            for node in ast.walk(st):
+                tg = None
+                if isinstance(node, ast.Assign) and len(node.targets) == 1:
+                    tg = node.targets[0]
+                elif isinstance(node, ast.AugAssign):
+                    tg = node.target
+                if tg is None:
+                    continue
+                key = ('arr:' + tg.value.id) if isinstance(tg, ast.Subscript) else tg.id if isinstance(tg, ast.Name) else None
+                if key is None:
+                    raise Unsupported('assignment target')
+                if key not in names:
+                    names.append(key)
+        return names
+
+    def run(stmts, env, pad):
+        """emit lets for the statements; returns the environment after them"""
+        env = dict(env)
+        for st in stmts:
+            if isinstance(st, (ast.Assign, ast.AugAssign)):
+                tg = st.targets[0] if isinstance(st, ast.Assign) else st.target
+                if isinstance(st, ast.Assign):
+                    v = expr(st.value, env, cx)
+                else:
+                    ops = {ast.Add: '+', ast.Sub: '-', ast.Mult: '*', ast.Div: '/'}
+                    if type(st.op) not in ops:
+                        raise Unsupported('augmented operator')
+                    v = '(%s %s %s)' % (expr(tg, env, cx), ops[type(st.op)], expr(st.value, env, cx))
+                if isinstance(tg, ast.Subscript):
+                    if not (isinstance(tg.value, ast.Name) and isinstance(tg.slice, ast.Name) and ('arr:' + tg.value.id) in env and ('idx:' + tg.slice.id) in env):
+                        raise Unsupported('array write')
+                    nm = fresh(tg.value.id)
+                    out.append('%slet %s := %s.set %s %s' % (pad, nm, env['arr:' + tg.value.id], env['idx:' + tg.slice.id], v))
+                    env['arr:' + tg.value.id] = nm
+                else:
+                    nm = fresh(tg.id)
+                    out.append('%slet %s := %s' % (pad, nm, v))
+                    env[tg.id] = nm
+            elif isinstance(st, ast.If):
+                c = cond(st.test, env, cx)
+                ea = run(st.body, env, pad)
+                eb = run(st.orelse, env, pad)
+                for key in assigned(st.body + st.orelse):
+                    a, b = ea.get(key), eb.get(key)
+                    if a is None or b is None:
+                        raise Unsupported('variable %s assigned in one branch only and not defined before' % key)
+                    if a != b:
+                        nm = fresh(key.replace('arr:', ''))
+                        out.append('%slet %s := if %s then %s else %s' % (pad, nm, c, a, b))
+                        env[key] = nm
+            elif isinstance(st, ast.For):
+                if not (isinstance(st.iter, ast.Call) and isinstance(st.iter.func, ast.Name) and st.iter.func.id == 'range' and len(st.iter.args) == 1
+                        and isinstance(st.iter.args[0], ast.Name) and isinstance(st.target, ast.Name)) or st.orelse:
+                    raise Unsupported('loop form')
+                if any(isinstance(x, ast.For) for b in st.body for x in ast.walk(b)):
+                    raise Unsupported('nested loop')
+                bound = st.iter.args[0].id
+                if dict(params).get(bound) != 'nat':
+                    raise Unsupported('loop bound')
+                keys = assigned(st.body)
+                for key in keys:
+                    if key not in env:
+                        raise Unsupported('loop variable %s not initialised' % key)
+                stv, iv, res = fresh('st'), fresh(st.target.id), fresh('loop')
+                out.append('%slet %s := (List.range %s).foldl (fun %s %s =>' % (pad, res, lean_name(bound), stv, iv))
+                inner = dict(env)
+                inner['idx:' + st.target.id] = iv
+                for j, key in enumerate(keys):
+                    nm = fresh(key.replace('arr:', ''))
+                    out.append('%s    let %s := %s' % (pad, nm, proj(stv, j, len(keys))))
+                    inner[key] = nm
+                after = run(st.body, inner, pad + '    ')
+                out.append('%s    (%s)) (%s)' % (pad, ', '.join(after[key] for key in keys), ', '.join(env[key] for key in keys)))
+                for j, key in enumerate(keys):
+                    nm = fresh(key.replace('arr:', ''))
+                    out.append('%slet %s := %s' % (pad, nm, proj(res, j, len(keys))))
+                    env[key] = nm
+            elif isinstance(st, ast.Return):
+                if st.value is not None:
+                    env['return'] = expr(st.value, env, cx)
+            elif isinstance(st, ast.Pass):
+                pass
+            else:
+                raise Unsupported('statement %s' % type(st).__name__)
+        return env
+    final = run(tree.body, env, '  ')
+    written = [nm for nm, k in params if k == 'arr' and final['arr:' + nm] != lean_name(nm)]
+    results = [final['arr:' + nm] for nm in written]
+    rtypes = ['List α'] * len(written)
+    if 'return' in final:
+        results.append(final['return'])
+        rtypes.append('α')
+    if not results:
+        raise Unsupported('no result')
+    sig = ' '.join('(%s : %s)' % (lean_name(nm), {'arr': 'List α', 'scalar': 'α', 'nat': 'Nat'}[k]) for nm, k in params)
+    text = 'def %s %s : %s :=\n%s\n  %s\n' % (lean_name(name), sig, ' × '.join(rtypes), '\n'.join(out),
+                                              ('(' + ', '.join(results) + ')') if len(results) > 1 else results[0])
+    return {'name': name, 'lean': text, 'params': params, 'written': written, 'has_return': 'return' in final,
+            'consts': sorted(cx.used_consts)}
+
+
 def const_term(node, consts, seen=()):
     cx = Ctx('', {k: v for k, v in consts.items() if k not in seen}, {})
     return expr(node, {}, cx), cx.used_consts
@@ -518,6 +682,7 @@ def generate():
         consts = module_constants(path)
         funcs = functions(path)
         known, done, skipped = {}, [], {}
+        loops, loops_done = [], set()
         pending = list(funcs)
         progress = True
         while pending and progress:
@@ -528,6 +693,15 @@ def generate():
                     t = translate(mod, name, ret, ptext, body, consts, known)
                 except Unsupported as e:
                     msg = str(e)
+                    if msg == 'loop' and name not in loops_done:
+                        try:
+                            lt = translate_loop_kernel(mod, name, ret, ptext, body, consts)
+                            loops.append(lt)
+                            loops_done.add(name)
+                            skipped.pop(name, None)
+                            continue
+                        except Unsupported as e2:
+                            msg = 'loop: %s' % e2
                     if msg.startswith('call of ') and msg.split()[-1] in {f[0] for f in pending}:
                         nxt.append((name, ret, ptext, body))          # callee may be translated later
                         skipped[name] = msg
@@ -541,7 +715,7 @@ def generate():
             pending = nxt
         # constants used
         cdefs, need = [], []
-        for t in done:
+        for t in done + loops:
             for k in t['consts']:
                 if k not in need:
                     need.append(k)
@@ -574,8 +748,8 @@ def generate():
                     break
             else:
                 break
-        modules.append((mod, rel, ordered, done))
-        report['translated'][mod] = [t['name'] for t in done]
+        modules.append((mod, rel, ordered, done, loops))
+        report['translated'][mod] = [t['name'] for t in done] + [t['name'] for t in loops]
         report['skipped'][mod] = skipped
     return modules, report
 
@@ -599,12 +773,13 @@ def cfmod (a b : α) : α := a - b * ctrunc (a / b)
 
 
 def render(modules):
-    src_lines = '\n'.join('  %s' % rel for _m, rel, _c, _d in modules)
+    src_lines = '\n'.join('  %s' % m[1] for m in modules)
     out = [HEADER % src_lines]
     ops = ['import MTfitVerif.Model.PyxKernels\nimport MTfitVerif.Driver.Proto\n/- GENERATED by harness/gen_pyx.py — evaluation table of the translated kernels -/\n'
            'namespace MTfitVerif.Driver\nopen MTfitVerif Proto\n\ndef pyxTable : List (String × (Nat × (List Float → List Float))) := [']
     rows = []
-    for mod, rel, consts, done in modules:
+    lrows = []
+    for mod, rel, consts, done, loops in modules:
         out.append('\nnamespace %s\n' % mod)
         for k, term, _u in consts:
             out.append('def k_%s : α := %s\n' % (k, term))
@@ -627,9 +802,30 @@ def render(modules):
             else:
                 body = 'let r := %s %s; [%s]' % (fn, ' '.join(call), ', '.join(proj('r', i, ncell) for i in range(ncell)))
             rows.append('  ("%s.%s", (%d, fun a => %s))' % (mod, t['name'], pos, body))
+        for t in loops:
+            out.append(t['lean'])
+            fn = 'Pyx.%s.%s' % (mod, lean_name(t['name']))
+            call, ai, si = [], 0, 0
+            for nm, k in t['params']:
+                if k == 'arr':
+                    call.append('(arrs.getD %d [])' % ai)
+                    ai += 1
+                elif k == 'scalar':
+                    call.append('(sc.getD %d 0)' % si)
+                    si += 1
+                else:
+                    call.append('n')
+            nres = len(t['written']) + (1 if t['has_return'] else 0)
+            parts = []
+            for j in range(nres):
+                pj = proj('r', j, nres)
+                parts.append(pj if j < len(t['written']) else '[%s]' % pj)
+            lrows.append('  ("%s.%s", fun arrs sc n => let r := %s %s; %s)' % (mod, t['name'], fn, ' '.join(call), ' ++ '.join(parts)))
         out.append('end %s\n' % mod)
     out.append('\nend Pyx\nend MTfitVerif\n')
     ops.append(',\n'.join(rows))
+    ops.append(']\n\n/-- array reductions: arrays, scalars, length -/\ndef pyxLoopTable : List (String × (List (List Float) → List Float → Nat → List Float)) := [')
+    ops.append(',\n'.join(lrows))
     ops.append(']\n\nend MTfitVerif.Driver\n')
     return ''.join(out), '\n'.join(ops)
 
